@@ -38,6 +38,61 @@ func sortTokens(s Sort, out map[string]bool) {
 
 const vcSizeCap = 4 << 20
 
+// lemmaHyp marks hypotheses that are `use`d lemmas (quantified facts about specification functions).  Such a lemma is
+// shipped with a VC only if every specification function it is about occurs in the rest of the VC: a congruence lemma
+// for lnode cannot help a VC that does not mention lnode, and quantified hypotheses slow the solvers down.
+var lemmaHyp = map[*Term]bool{}
+var lemmaHypMu sync.Mutex
+
+var commonSpecSyms = map[string]bool{"sub": true, "cat": true, "overlay": true, "shake": true, "sha256": true, "toByte32": true, "addrBytes": true,
+	"xorArr": true, "hashArr": true, "bxor": true, "band": true, "bor": true, "shakeArr": true, "bdiff": true, "subdiff": true, "byte32": true}
+
+func (e *Engine) dropIrrelevantLemmas(o *Obligation) []*Term {
+	var lemmas, rest []*Term
+	lemmaHypMu.Lock()
+	defer lemmaHypMu.Unlock()
+	for _, h := range o.Hyps {
+		if lemmaHyp[h] {
+			lemmas = append(lemmas, h)
+		} else {
+			rest = append(rest, h)
+		}
+	}
+	if len(lemmas) == 0 {
+		return o.Hyps
+	}
+	have := map[string]symInfo{}
+	for _, h := range rest {
+		h.collectSyms(nil, have)
+	}
+	o.Goal.collectSyms(nil, have)
+	out := rest
+	for _, l := range lemmas {
+		ls := map[string]symInfo{}
+		l.collectSyms(nil, ls)
+		ok := true
+		for k, si := range ls {
+			if len(si.Args) == 0 || commonSpecSyms[k] {
+				continue
+			}
+			sig, isSpec := e.spec.sigs[k]
+			if !isSpec || len(sig.Args) == 0 {
+				continue
+			}
+			if _, present := have[k]; !present {
+				// defined (macro) functions expand; only declared functions are matched by name
+				if e.spec.isDeclared(k) {
+					ok = false
+				}
+			}
+		}
+		if ok {
+			out = append(out, l)
+		}
+	}
+	return out
+}
+
 // relevantHyps drops axiom instances about application terms that do not occur in the rest of the VC.
 func relevantHyps(o *Obligation) []*Term {
 	var base []*Term
@@ -137,6 +192,7 @@ func (e *Engine) sliceHyps(o *Obligation, hops int) []*Term {
 
 func (e *Engine) renderVC(o *Obligation) (string, error) {
 	o.Hyps = relevantHyps(o)
+	o.Hyps = e.dropIrrelevantLemmas(o)
 	syms := map[string]symInfo{}
 	for _, h := range o.Hyps {
 		h.collectSyms(nil, syms)
